@@ -151,3 +151,41 @@ Fixpoint hdrs_of (pid : N) (first : bool) (l : list item) : list bytes :=
   | Mine m af _ :: t => hdr_of pid first m af :: hdrs_of pid false t
   end.
 Definition all_mine (l : list item) : Prop := Forall (fun it => match it with Mine _ _ _ => True | Other _ => False end) l.
+
+(* ---- decidable forms of the hypotheses (run by modelexec on every generated deciding case; proved sound in Proofs/PmtHyp.v) ---- *)
+Definition wf_descb (d : desc) : bool := (dtag d <? 256) && (len (ddata d) <? 256) && is_bytesb (ddata d).
+Definition wf_esb (e : es) : bool :=
+  (stype e <? 256) && (epid e <? 8192) && forallb wf_descb (descs e) && (len (ser_descs (descs e)) <? 1024).
+Definition wf_secb (s : pmt_sec) : bool :=
+  (prog s <? 65536) && (sversion s <? 32) && (secno s <? 256) && (lastno s <? 256) && (pcr_pid s <? 8192) &&
+  forallb wf_descb (pdescs s) && (len (ser_descs (pdescs s)) <? 1024) && forallb wf_esb (sstreams s) &&
+  (sec_len s <=? 1021) && (len (crc s) =? 4) && is_bytesb (crc s).
+Definition wf_otherb (o : other_sec) : bool :=
+  (otid o <? 256) && negb (otid o =? 2) && negb (otid o =? 255) && (ohi o <? 16) && (len (obody o) <=? 1021) && is_bytesb (obody o).
+Definition wf_carrierb (c : carrier) : bool := (pf c <=? 182) && forallb wf_otherb (pre c) && wf_secb (sec c).
+Definition wf_itemb (pid : N) (it : item) : bool :=
+  match it with
+  | Other p => (len p =? 188) && is_bytesb p && negb (pid_of p =? pid)
+  | Mine m af ch =>
+    (pid <? 8192) && (tsc m <? 4) && (cc m <? 16) && is_bytesb ch &&
+    match af with Some a => is_bytesb a && (4 + 1 + len a + len ch =? 188) | None => (4 + len ch =? 188) end
+  end.
+Definition inner_endb (c : carrier) (k : N) : bool :=
+  existsb (fun i => k =? 1 + pf c + len (ser_pre (firstn i (pre c)))) (seq 1 (length (pre c))).
+Definition cuts_okb (c : carrier) (l : list item) : bool :=
+  forallb (fun j => let k := len (concat (chunks (firstn j l))) in negb (k <? len (ser_unit c)) || negb (inner_endb c k))
+          (seq 0 (S (length l))).
+Fixpoint bytes_eqb (a b : bytes) : bool :=
+  match a, b with
+  | [], [] => true
+  | x :: a', y :: b' => (x =? y) && bytes_eqb a' b'
+  | _, _ => false
+  end.
+Definition all_mineb (l : list item) : bool := forallb (fun it => match it with Mine _ _ _ => true | Other _ => false end) l.
+(* all hypotheses of C06_L4_read_pmt / of C14_filter_spec (except want <> []) *)
+Definition hyp_readb (c : carrier) (pid : N) (l : list item) : bool :=
+  wf_carrierb c && negb (match sstreams (sec c) with [] => true | _ => false end) &&
+  forallb (wf_itemb pid) l && bytes_eqb (concat (chunks l)) (ser_payload c) && cuts_okb c l.
+Definition hyp_filterb (c : carrier) (pid : N) (l : list item) : bool :=
+  wf_carrierb c && (match pre c with [] => true | _ => false end) && all_mineb l &&
+  forallb (wf_itemb pid) l && bytes_eqb (concat (chunks l)) (ser_payload c).
